@@ -24,7 +24,9 @@ func (rr *SIG) Sign(k crypto.Signer, m *Msg) ([]byte, error) {
 	rr.Hdr = RR_Header{Name: ".", Rrtype: TypeSIG, Class: ClassANY, Ttl: 0}
 	rr.OrigTtl, rr.TypeCovered, rr.Labels = 0, 0, 0
 
-	buf := make([]byte, m.Len()+Len(rr))
+	// PackBuffer only packs in place when the buffer is larger than the uncompressed
+	// length, whatever m.Compress says; m.Len() is the compressed length.
+	buf := make([]byte, msgLenWithCompressionMap(m, nil)+Len(rr))
 	mbuf, err := m.PackBuffer(buf)
 	if err != nil {
 		return nil, err
